@@ -672,6 +672,7 @@ func (cs *ConsensusState) stopTimer() {
 // Updates (state transitions) happen on timeouts, complete proposals, and 2/3 majorities
 func (cs *ConsensusState) receiveRoutine(maxSteps int) {
 	for {
+		cs.verifIdle()
 		if maxSteps > 0 {
 			if cs.nSteps >= maxSteps {
 				log.Error("reached max steps. exiting receive routine")
